@@ -100,10 +100,12 @@ def run(case, max_steps=300000):
                 rec['value'] = ('value', key, me)
                 return rec['value']
             except aio.CancelledError:
-                rec['kind'] = 'cancel'
+                if not sim.aborted:
+                    rec['kind'] = 'cancel'
                 raise
             finally:
-                rec['exit'] = (sim.now, sim.steps)
+                if not sim.aborted:
+                    rec['exit'] = (sim.now, sim.steps)
 
         wrapped = A.threadsafe_async_cache(f, cache=cache) if cache is not None \
             else A.threadsafe_async_cache(f)
@@ -143,12 +145,16 @@ def run(case, max_steps=300000):
                         v = await wrapped(cs['key'])
                     rec['outcome'] = ('ok', v)
                 except aio.CancelledError as e:
-                    rec['outcome'] = ('cancelled', e)
+                    if not sim.aborted:
+                        rec['outcome'] = ('cancelled', e)
                     raise
                 except BaseException as e:  # noqa
+                    if sim.aborted:       # unwinding of an aborted run is not an observation
+                        raise
                     rec['outcome'] = ('exc', e)
                 finally:
-                    rec['done'] = (sim.now, sim.steps)
+                    if not sim.aborted:
+                        rec['done'] = (sim.now, sim.steps)
 
             async def main():
                 loop = aio.get_running_loop()
